@@ -92,6 +92,9 @@ def gen_case(rng, tier):
             r['tags'] = [t for t in r['tags'] if not t.startswith('{')]
         m['variables'] = [['is_large', 'amount > 100']] if rng.random() < 0.5 else []
         m['transforms'] = [['field.description', 'strip_prefix(field.description, "SQ *")']] if rng.random() < 0.4 else []
+        if rng.random() < 0.4:
+            # a transform that assigns a *custom* field (sources without custom columns have no field dict at all)
+            m['transforms'] = m['transforms'] + [[rng.choice(['field.ref', 'field.kind']), rng.choice(['extract("r(\\d+)")', 'uppercase(description)'])]]
         k = rng.randrange(len(m['rules']))
         r = m['rules'][k]
         good_value = rng.choice(['uppercase(description)', 'amount * 2', 'extract("r(\\\\d+)")'])
@@ -132,7 +135,7 @@ def gen_case(rng, tier):
             r['tags'] = r['tags'] + ['{%s}' % expr]
         else:
             expr = 'strip_prefix(field.description, "SQ *")' if injected else rng.choice(['regex_replace(field.description, "(", "")', 'field.description + 1', 'field.nosuch', 'uppercase()'])
-            m['transforms'] = [['field.description', expr]] + ([['field.description', 'regex_replace(field.description, "\\\\s+STORE", "")']] if rng.random() < 0.5 else [])
+            m['transforms'] = [[rng.choice(['field.description', 'field.description', 'field.ref']), expr]] + ([['field.description', 'regex_replace(field.description, "\\\\s+STORE", "")']] if rng.random() < 0.5 else [])
         case.update({'site': site, 'model': m, 'expr': expr, 'rule_index': k})
     elif family == 'legacy':
         site = rng.choice(SITES_LEGACY)
